@@ -499,6 +499,7 @@ using MT = eventpp::MultipleThreading;
 #define VERIF_PREFIX "C10"
 #endif
 
+typedef eventpp::GeneralThreading<eventpp::SpinLock, std::atomic, std::condition_variable_any> SpinT;
 static struct Register {
 	Register() {
 		const int patterns[] = {0xFF, 0x00, 0xA5};
@@ -520,6 +521,8 @@ static struct Register {
 #endif
 #if SEL(2)
 			addUnit<AQueue<MT>, false>(VERIF_PREFIX "/EventQueue/multi" + sfx, mt, c, 5, 8, 1, 1);
+			// SpinLock as the mutex: its flag has to be initialised by every constructor of every object that embeds one
+			addUnit<AQueue<SpinT>, false>(VERIF_PREFIX "/EventQueue/spinlock" + sfx, mt, c, 5, 8, 1, 1);
 #endif
 #if SEL(3)
 			addUnit<AQueue<VThreading>, false>(VERIF_PREFIX "/EventQueue/vthreading" + sfx, mt, c, 5, 8, 1, 1);
@@ -531,6 +534,7 @@ static struct Register {
 #endif
 #if SEL(5)
 			addUnit<AHeterQueue<MT>, true>(VERIF_PREFIX "/HeterEventQueue/multi" + sfx, mt, c, 5, 8, 1, 1);
+			addUnit<AHeterQueue<SpinT>, true>(VERIF_PREFIX "/HeterEventQueue/spinlock" + sfx, 1, c, 5, 8, 1, 1);
 #endif
 		}
 #if SEL(0)
